@@ -172,14 +172,17 @@ def prepare(text, separator=Separator(), unit='phone',
 
     # define the function that prepare the text (removing requested
     # separators)
+    # an undefined (None) separator is never present in the text
     if unit == 'phone':
         def func(line):
-            return line.replace(separator.syllable, '')\
-                       .replace(separator.word, '')
+            return line.replace(separator.syllable or '', '')\
+                       .replace(separator.word, '')\
+                       .replace(separator.phone or ' ', ' ')
     else:  # syllable
         def func(line):
             return line.replace(separator.word, '')\
                        .replace(' ', '')\
+                       .replace(separator.phone or '', '')\
                        .replace(separator.syllable, ' ')
 
     nremoved = 0
@@ -237,7 +240,7 @@ def gold(text, separator=Separator()):
     """
     # delete phone and syllable separators. Replace word boundaries by
     # a single space.
-    gold = (line.replace(separator.syllable, '')
+    gold = (line.replace(separator.syllable or '', '')
             .replace(separator.phone or '', '')
             .replace(separator.word, ' ') for line in text)
 
